@@ -5,6 +5,7 @@ CONSTANTS
  MaxFaults = 0
  MaxCrashes = 0
  MaxIdxLoss = 0
+ SyncFlush = TRUE
  InlineAt = 0
  Interval = 1
  MBs = {9}
